@@ -6,6 +6,8 @@ import (
 	"sync"
 	"testing"
 
+	"github.com/enbility/spine-go/api"
+	"github.com/enbility/spine-go/spine"
 	"pgregory.net/rapid"
 
 	"verifharness/world"
@@ -17,6 +19,7 @@ import (
 type planOp struct {
 	Kind string // pub | sub | unsub
 	H    int    // handler of sub / unsub
+	Core bool   // sub / unsub on the core level (build-tag hook)
 	Root int    // index of a pub among the history's publish operations
 }
 
@@ -24,7 +27,7 @@ func (o planOp) String() string {
 	if o.Kind == "pub" {
 		return fmt.Sprintf("pub#%d", o.Root)
 	}
-	return fmt.Sprintf("%s(h%d)", o.Kind, o.H)
+	return fmt.Sprintf("%s(%s)", o.Kind, hname(vh(o.H, o.Core)))
 }
 
 type phasePlan struct {
@@ -40,18 +43,27 @@ type busPlan struct {
 	Phases   []phasePlan
 }
 
-func genAction(t *rapid.T, nh int, label string) action {
+func genAction(t *rapid.T, nh int, levels bool, label string) action {
 	a := action{Kind: rapid.SampledFrom([]string{"unsub", "sub", "publish", "call", "wait"}).Draw(t, label+"kind")}
 	switch a.Kind {
 	case "sub", "unsub":
 		a.H = rapid.IntRange(0, nh-1).Draw(t, label+"target")
+		a.Core = levels && genCoreLevel(t, label+"level")
 	case "call":
 		a.V = rapid.IntRange(0, callVariants-1).Draw(t, label+"variant")
 	}
 	return a
 }
 
-func genScripts(t *rapid.T, nh int) [][][]action {
+// genCoreLevel: most (un)subscriptions are those of applications; the others put the handler object
+// on the core level, as the stack does with its local devices.
+func genCoreLevel(t *rapid.T, label string) bool {
+	return rapid.SampledFrom([]bool{false, false, true}).Draw(t, label)
+}
+
+// genScripts; levels: (un)subscriptions on the core level too (only where every event is one of
+// the harness, so that the level of a delivery can be told).
+func genScripts(t *rapid.T, nh int, levels bool) [][][]action {
 	scripts := make([][][]action, nh)
 	for h := 0; h < nh; h++ {
 		n := rapid.IntRange(0, 3).Draw(t, fmt.Sprintf("h%dscripts", h))
@@ -59,7 +71,7 @@ func genScripts(t *rapid.T, nh int) [][][]action {
 			var sc []action
 			m := rapid.IntRange(0, 2).Draw(t, fmt.Sprintf("h%ds%dlen", h, s))
 			for i := 0; i < m; i++ {
-				sc = append(sc, genAction(t, nh, fmt.Sprintf("h%ds%da%d", h, s, i)))
+				sc = append(sc, genAction(t, nh, levels, fmt.Sprintf("h%ds%da%d", h, s, i)))
 			}
 			scripts[h] = append(scripts[h], sc)
 		}
@@ -69,7 +81,7 @@ func genScripts(t *rapid.T, nh int) [][][]action {
 
 func genBusPlan(t *rapid.T) busPlan {
 	pl := busPlan{Handlers: rapid.IntRange(1, 4).Draw(t, "handlers"), Peer: rapid.Bool().Draw(t, "peer")}
-	pl.Scripts = genScripts(t, pl.Handlers)
+	pl.Scripts = genScripts(t, pl.Handlers, true)
 	roots := 0
 	nph := rapid.IntRange(1, 5).Draw(t, "phases")
 	for p := 0; p < nph; p++ {
@@ -85,6 +97,7 @@ func genBusPlan(t *rapid.T) busPlan {
 					roots++
 				} else {
 					op.H = rapid.IntRange(0, pl.Handlers-1).Draw(t, fmt.Sprintf("p%dw%do%dh", p, w, i))
+					op.Core = genCoreLevel(t, fmt.Sprintf("p%dw%do%dlevel", p, w, i))
 				}
 				ops = append(ops, op)
 			}
@@ -123,9 +136,9 @@ func (b *bench) runPhase(t world.TB, idx int, ph phasePlan) {
 				case "pub":
 					b.publish(op.Root, 0, ctx, concurrent)
 				case "sub":
-					b.subscribe(op.H, ctx)
+					b.subscribeAt(op.H, op.Core, ctx)
 				case "unsub":
-					b.unsubscribe(op.H, ctx)
+					b.unsubscribeAt(op.H, op.Core, ctx)
 				}
 			}
 		}(fmt.Sprintf("p%dw%d", idx, wi), ops)
@@ -145,6 +158,13 @@ func TestBusHistories(t *testing.T) {
 		pl := genBusPlan(t)
 		b := newBench(pl.Handlers, pl.Scripts, pl.Cfgs)
 		defer b.w.Teardown()
+		// (runs before Teardown: what the stack publishes while it shuts down is not for the harness's
+		// core level handlers - their scripts are made for events whose level of delivery can be told)
+		defer func() {
+			for _, h := range b.hs {
+				_ = spine.VerifUnsubscribe(api.EventHandlerLevelCore, h)
+			}
+		}()
 		if pl.Peer {
 			b.addPeer(b.w.AddPeer("ski1", "d:_r:peer1", peerTree(1)))
 		}
@@ -168,14 +188,25 @@ func TestBusHistories(t *testing.T) {
 			nested = nested || p.Nested
 		}
 		labels := []string{fmt.Sprintf("bus/handlers/%d", pl.Handlers)}
+		coreSub, coreSubReentrant, coreDelivered := false, false, false
+		for _, o := range ops {
+			if o.H >= coreBase && o.Kind == kSub {
+				coreSub = true
+				coreSubReentrant = coreSubReentrant || o.reentrant()
+			}
+		}
+		for _, d := range dels {
+			coreDelivered = coreDelivered || d.H >= coreBase
+		}
 		for name, on := range map[string]bool{"bus/peer": pl.Peer, "bus/concurrent-publication": concurrent, "bus/nested-publication": nested,
-			"bus/reentrant": reacted > 0, "bus/between": betweenTwoPublications(ops, pubs), "bus/handlers-alike": alike(pl.Cfgs)} {
+			"bus/reentrant": reacted > 0, "bus/between": betweenTwoPublications(ops, pubs), "bus/handlers-alike": alike(pl.Cfgs),
+			"bus/core-level-subscription": coreSub, "bus/core-level-subscription-from-a-handler": coreSubReentrant, "bus/core-level-delivery": coreDelivered} {
 			if on {
 				labels = append(labels, name)
 			}
 		}
 		// statistics first (a failing case is still an executed case)
-		ty := dryTally(b.handlerIndexes(), ops, pubs)
+		ty := dryTally(b.subscriberIndexes(), ops, pubs)
 		nontrivial := ty.must > 0 && ((subscribedEver(ops) >= 2 && betweenTwoPublications(ops, pubs)) || reacted > 0)
 		world.Record(world.Hash("bus", fmt.Sprint(pl.render())), nontrivial, labels...)
 		world.AddExtra("bus_pairs_must", int64(ty.must))
@@ -189,7 +220,7 @@ func TestBusHistories(t *testing.T) {
 				"pairs": map[string]int{"must": ty.must, "must-not": ty.mustNot, "either": ty.either}})
 		}
 
-		judge(t, b.handlerIndexes(), ops, pubs, dels, true)
+		judge(t, b.subscriberIndexes(), ops, pubs, dels, true)
 	}))
 }
 
